@@ -70,6 +70,8 @@ type Ctx struct {
 	Only    int64
 	Resume  int64
 	Variant string
+	// ReplayFile, when set, is the replay witness written by the driver for the case in Only.
+	ReplayFile string
 
 	mu       sync.Mutex
 	out      *os.File
@@ -100,6 +102,7 @@ func FromFlags() *Ctx {
 	flag.Int64Var(&c.Resume, "resume", 0, "skip case indices below this")
 	flag.StringVar(&c.Variant, "variant", "plain", "build variant (plain|race|overlay)")
 	flag.StringVar(&out, "out", "", "output prefix")
+	flag.StringVar(&c.ReplayFile, "replayfile", "", "replay witness (with -only)")
 	flag.Parse()
 	if out == "" {
 		fmt.Fprintln(os.Stderr, "worker: -out required")
@@ -256,6 +259,24 @@ func (c *Ctx) Finish() {
 	_ = c.out.Close()
 	_ = c.hashes.Close()
 	_ = c.journal.Close()
+}
+
+// ReplayWitness returns the witness object of the replay file, if any.
+func (c *Ctx) ReplayWitness() map[string]any {
+	if c.ReplayFile == "" {
+		return nil
+	}
+	b, err := os.ReadFile(c.ReplayFile)
+	if err != nil {
+		return nil
+	}
+	var v struct {
+		Witness map[string]any `json:"witness"`
+	}
+	if json.Unmarshal(b, &v) != nil {
+		return nil
+	}
+	return v.Witness
 }
 
 // Mine reports whether case idx belongs to this worker invocation.
